@@ -31,12 +31,13 @@ void ProxyIOGateway :: HandleIncomingByteBuffer(AbstractGatewayMessageReceiver &
       if (GetMaximumPacketSize() > 0)
       {
          // packet-IO implementation
-         _fakePacketReceiveIO.SetBuffersToRead(buf, fromIAP);
-         _slaveGateway()->SetDataIO(DummyDataIORef(_fakePacketReceiveIO));
+         // Note that (buf) may be a reassembled buffer that is larger than a single packet, so we mustn't let the slave gateway truncate it to _fakePacketReceiveIO's (fixed) maximum packet size
+         ByteBufferPacketDataIO fakePacketReceiveIO(buf, fromIAP, muscleMax(buf()->GetNumBytes(), GetMaximumPacketSize()));
+         _slaveGateway()->SetDataIO(DummyDataIORef(fakePacketReceiveIO));
          _scratchReceiver    = &receiver;
          _scratchReceiverArg = (void *) &fromIAP;
          (void) _slaveGateway()->DoInput(*this, buf()->GetNumBytes());
-         _fakePacketReceiveIO.ClearBuffersToRead();
+         _slaveGateway()->SetDataIO(DataIORef());  // so the slave gateway isn't left pointing at (fakePacketReceiveIO) after it goes out of scope
       }
       else
       {
